@@ -40,6 +40,15 @@ impl<T> VxIter<T> {
             !r ==> forall|i: int| 0 <= i < self.rest().len() ==> f.ensures((#[trigger] self.rest()[i],), false),
     { unimplemented!() }
 
+    /// Iterator::all: true iff the closure returns true for every remaining element
+    #[verifier::external_body]
+    pub fn all<F: FnMut(T) -> bool>(self, f: F) -> (r: bool)
+        requires forall|x: T| f.requires((x,)),
+        ensures
+            r ==> forall|i: int| 0 <= i < self.rest().len() ==> f.ensures((#[trigger] self.rest()[i],), true),
+            !r ==> exists|i: int| 0 <= i < self.rest().len() && #[trigger] f.ensures((self.rest()[i],), false),
+    { unimplemented!() }
+
     /// ghost: the source sequence and the per-element predicate outcomes of the `filter` that built this iterator
     pub uninterp spec fn filter_src(&self) -> Seq<T>;
     pub uninterp spec fn filter_sel(&self) -> Seq<bool>;
